@@ -1,6 +1,6 @@
 CONSTANTS
   GC = FALSE
-  NonTailIf = FALSE
+  Broken = "none"
   Family = "fault"
   MaxKont = 16
 SPECIFICATION Spec
